@@ -5,6 +5,7 @@ set -e
 cd "$(dirname "$0")"
 export PIP_NO_INDEX=1
 if [ -x .venv/bin/python ] && .venv/bin/python -c "import crosshair, z3, mitmproxy" 2>/dev/null; then
+  PYTHONPATH="$PWD" .venv/bin/python -m vf.selfcheck >/dev/null || { echo "engine selfcheck failed" >&2; exit 3; }
   exit 0
 fi
 (
@@ -18,4 +19,5 @@ fi
   printf "import site; site.addsitedir('/venv/lib/python3.12/site-packages')\n/repo\n" > "$SP/_overlay.pth"
   .venv/bin/python -m pip install -q --no-index --find-links /opt/veriftools/wheels crosshair-tool z3-solver >/dev/null
   .venv/bin/python -c "import crosshair, z3, mitmproxy; print('verif venv ready: crosshair', crosshair.__version__, 'z3', z3.get_version_string())"
+  PYTHONPATH="$PWD" .venv/bin/python -m vf.selfcheck
 ) 9>.venv.lock
